@@ -62,12 +62,20 @@ impl OffsetDateTime {
     { Ok(OffsetDateTime { t: timestamp }) }
 }
 
+spec fn trunc_div(a: int, b: int) -> int { if a >= 0 { a / b } else { -((-a) / b) } }
 #[verifier::external_body]
 struct Duration { n: i128 }
 impl Duration {
     uninterp spec fn nanos(&self) -> int;
     #[verifier::external_body]
     const fn days(days: i64) -> (r: Duration) ensures r.nanos() == days * 86_400 * 1_000_000_000 { Duration { n: days as i128 } }
+    // whole units, truncated toward zero (time::Duration accessors)
+    #[verifier::external_body]
+    fn whole_days(&self) -> (r: i64) ensures r as int == trunc_div(self.nanos(), 86_400int * 1_000_000_000) { unimplemented!() }
+    #[verifier::external_body]
+    fn whole_hours(&self) -> (r: i64) ensures r as int == trunc_div(self.nanos(), 3_600int * 1_000_000_000) { unimplemented!() }
+    #[verifier::external_body]
+    fn whole_seconds(&self) -> (r: i64) ensures r as int == trunc_div(self.nanos(), 1_000_000_000) { unimplemented!() }
 }
 impl PartialEqSpecImpl for Duration {
     closed spec fn obeys_eq_spec() -> bool { true }
@@ -246,6 +254,7 @@ spec fn now_of(now: UnixTime) -> ASN1Time { asn1_new(odt_of(now.secs() as i64)) 
 
 impl ServerHashVerification {
 //@ extract wtransport/src/tls.rs >> mod client >> impl ServerHashVerification >> const SELF_MAX_VALIDITY
+//@ optional
 //@ subst `const SELF_MAX_VALIDITY: time::Duration =` => `exec const SELF_MAX_VALIDITY: Duration ensures Self::SELF_MAX_VALIDITY.nanos() == FOURTEEN_DAYS_NANOS {`
 //@ subst `;` => ` }`
 //@ rename `time::Duration` => `Duration`
